@@ -89,7 +89,7 @@ for dk in ('real', 'int'):
     c.ensures('zero-delay-never-blocks-when-on-time', "delay == 0 and _now0 - old(self._start_time) >= old(self._cue_time) ==> ghost('waits') == _waits0")
 
 # ---- wait_until: returns at the first read that matches, then restarts the time line
-c = contract(C, 'Clock.wait_until', serves=['C10', 'C09'])
+c = contract(C, 'Clock.wait_until', serves=['C10', 'C09', 'C01'])
 def _setup(b, case):
     clk, start, cue, now0 = clock_obj(b)
     matchf = z3.Function('PatternMatches', z3.IntSort(), z3.IntSort(), z3.BoolSort())
